@@ -207,6 +207,10 @@ impl PresentArguments {
     /// Gets the name of the extension.
     #[inline]
     pub fn name(&self) -> &str {
+        // `Self::empty` (what extensions bound to a file extension or a predicate get) has no name
+        if self.len == 0 {
+            return "";
+        }
         // .1 and .0 should be the same; the name of (usize, usize) should have the same name as it's first argument.
         let (start, len) = self.data.extensions[self.data_index].get_name();
         // safe, because we checked for str in creation of [`PresentExtensions`].
@@ -218,7 +222,8 @@ impl PresentArguments {
         PresentArgumentsIter {
             data: &self.data,
             data_index: self.data_index,
-            back_index: self.len,
+            // the first entry is the name; `Self::empty` has no entries at all
+            back_index: self.len.max(1),
             index: 1,
         }
     }
